@@ -5,6 +5,7 @@
 //     `go f(a, b)` turned into `{ f0, a0, b0 := f, a, b; sync.Go(func() { f0(a0, b0) }) }`
 //     (operands are still evaluated in the spawning goroutine, as the language requires);
 //   - <repo>/vsync/vsync.go is added (virtual directory).
+//
 // The rewrite is purely syntactic, so it keeps working when the async code is edited.
 package main
 
